@@ -113,7 +113,10 @@ def monitor(impl, cfg, cname, hist, pre, ev, post, mon, vb: VB, bnds) -> Tuple:
         else:
             f_imr, f_f = frame[0], frame[1]
             f_pc = frame[2] | (frame[3] << 8) | (frame[4] << 16)
-            if not (f_imr & 0x80):
+            if not (f_imr & 0x80) and depth > 0:
+                vb.add(sig("handler-re-entered-with-master-enable-clear"), f"{impl} {cname}: a second interrupt was taken inside a handler "
+                       f"(depth {depth}) although the master enable is clear (IMR={f_imr:#04x}, ISR={isr_post:#04x}) after {hist}", wit)
+            elif not (f_imr & 0x80):
                 vb.add(sig("taken-with-master-enable-clear"), f"{impl} {cname}: interrupt taken with IMR={f_imr:#04x} (IRM clear), "
                        f"ISR={isr_post:#04x} after {hist}", wit)
             if not (f_imr & isr_post & 0x0F) and not (f_imr & isr_pre & 0x0F):
